@@ -95,7 +95,7 @@ pub fn run_probe(kind: &str, seed: u64, scratch: &Path, rep: &mut Report) {
     rep.branch(&format!("probe:{}", kind));
     let text = format!("probe kind={} seed={}", kind, seed);
     let mut rng = Rng::new(seed ^ 0x5eed);
-    // no second device here: the known finding F25 must not blur the probes
+    // no second device here: (historical: the then-open finding F25 was not to blur the probes)
     let (mut main, _alt, mut roots) = gen_case(&mut rng, false);
     let mut cfg = gen_cfg(&mut rng);
     // fixed witnesses of the two known findings of the `perm` probe (independent of the random generator)
